@@ -87,6 +87,10 @@ def gen_case(rng, i):
             ch["alignment"] = [rng.choice(ALIGN) for _ in range(k2)]
         children.append(ch)
     case = {"kind": kind, "flow": flow, "columns": columns, "rows": rows, "children": children, "reject": None}
+    if kind == "grid" and flow == "ltr" and i % 3 == 0:
+        case["explicit_flow"] = True
+    if kind == "grid" and i % 4 == 1:
+        case["other_count"] = ("rows" if flow == "ltr" else "columns", 10 + (i // 4) % 7)
     if kind in ("grid", "form"):
         cells, err = flow_model(kind, flow, ecols, erows, children)
         assert err is None, err
@@ -192,6 +196,10 @@ def to_qml(case):
             out.append("        columns: %d" % case["columns"])
         if case["rows"] is not None:
             out.append("        rows: %d" % case["rows"])
+        if case.get("other_count"):
+            # the count of the direction the layout does not flow in: no part of the flow rule (the direction is `flow`, left to
+            # right when absent - examples/LayoutFlow.qml); large enough not to clash with any explicit index
+            out.append("        %s: %d" % case["other_count"])
     for i, ch in enumerate(case["children"]):
         out.append("        %s {" % ch["cls"])
         out.append("            id: c%d" % i)
